@@ -39,7 +39,7 @@ def _matrix(text, name):
         ln = ln.split("%")[0].strip().rstrip(";").strip()
         if not ln:
             continue
-        rows.append([float(x) for x in re.split(r"[\s,]+", ln) if x])
+        rows.append([float(x.replace("Inf", "inf")) for x in re.split(r"[\s,]+", ln) if x])
     return rows
 
 
@@ -62,7 +62,7 @@ def read_matpower(path):
         if r[4] != 0 or r[5] != 0:
             net["shunts"][n] = net["shunts"].get(n, 0j) + complex(r[4], r[5]) / sb
     for r in _matrix(text, "gen"):
-        net["gens"].append(dict(bus=int(r[0]), pg=r[1] / sb, vs=r[5], ireg=0, on=r[7] > 0))
+        net["gens"].append(dict(bus=int(r[0]), pg=r[1] / sb, vs=r[5], ireg=0, on=r[7] > 0, qmax=r[3] / sb, qmin=r[4] / sb))
     for r in _matrix(text, "branch"):
         if r[10] <= 0:
             continue
@@ -142,7 +142,8 @@ def read_raw(path):
         n = int(_num(f[0]))
         net["shunts"][n] = net["shunts"].get(n, 0j) + complex(_num(f[3]), _num(f[4])) / sb
     for f in recs["generator"]:
-        net["gens"].append(dict(bus=int(_num(f[0])), pg=_num(f[2]) / sb, vs=_num(f[6], 1.0), ireg=int(_num(f[7])), on=int(_num(f[14], 1)) == 1))
+        net["gens"].append(dict(bus=int(_num(f[0])), pg=_num(f[2]) / sb, vs=_num(f[6], 1.0), ireg=int(_num(f[7])), on=int(_num(f[14], 1)) == 1,
+                                qmax=_num(f[4]) / sb, qmin=_num(f[5]) / sb))
     for f in recs["branch"]:
         if int(_num(f[13], 1)) != 1:
             continue
@@ -302,6 +303,30 @@ def source_balance(net, V, tol=1e-6):
         if abs(dQ) > lim:
             bad.append(dict(bus=n, what="reactive power mismatch %.3e (limit %.1e)" % (dQ, lim)))
     return dict(bad=bad, checked=checked, worst=worst, undecided=list(net["undecided"]), zip_buses=len(zip_buses))
+
+
+def compare_generators(ss, net):
+    """Reactive limits of the generators, bus by bus, against the source records (an unbounded limit may be stored as any
+    finite number of at least 1e6 per unit with the sign of the source)."""
+    bad = []
+    src = {}
+    for g in net["gens"]:
+        src.setdefault(g["bus"], []).append((g["qmax"], g["qmin"]))
+    got = {}
+    for mdl in ss.StaticGen.models.values():
+        for k in range(mdl.n):
+            got.setdefault(mdl.bus.v[k], []).append((float(mdl.qmax.v[k]), float(mdl.qmin.v[k])))
+
+    def same(a, b):
+        if math.isinf(a):
+            return abs(b) >= 1e6 and (b > 0) == (a > 0)
+        return abs(a - b) <= 1e-9 * max(1.0, abs(a))
+    for bus, lst in src.items():
+        have = sorted(got.get(bus, []))
+        want = sorted((min(a, 1e300), max(b, -1e300)) for a, b in lst)
+        if len(have) != len(want) or not all(same(w[0], h[0]) and same(w[1], h[1]) for w, h in zip(sorted(lst), have)):
+            bad.append(dict(bus=bus, what="reactive limits (qmax, qmin) %s, the file has %s" % (have[:3], sorted(lst)[:3])))
+    return bad
 
 
 def read_source(path):
@@ -471,7 +496,7 @@ def write_matpower(path, seed, base_mva=100.0):
         pd, qd = (0.0, 0.0) if i == 1 else (rnd.choice([20.0, 35.0, 50.0]), rnd.choice([5.0, 10.0, -4.0]))
         gs, bs = rnd.choice([(0.0, 0.0), (0.0, 19.0), (1.5, -6.0)])
         bus.append([i, typ, pd, qd, gs, bs, 1, 1.0, 0.0, 230.0, 1, 1.1, 0.9])
-    gen.append([1, 50.0, 0.0, 300.0, -300.0, 1.03, base_mva, 1, 250.0, 10.0])
+    gen.append([1, 50.0, 0.0, float("inf"), float("-inf"), 1.03, base_mva, 1, 250.0, 10.0])     # no reactive limits
     for k, i in enumerate(sorted(pv)):
         gen.append([i, rnd.choice([30.0, 45.0]), 0.0, 300.0, -300.0, rnd.choice([1.01, 1.02]), base_mva, 1, 250.0, 10.0])
         if k == 0:
@@ -487,7 +512,7 @@ def write_matpower(path, seed, base_mva=100.0):
     br.append([2, 4, 0.02, 0.10, 0.02, 250, 250, 250, 0.0, 0.0, 0, -360, 360])                  # out of service
 
     def mat(name, rows):
-        return "mpc.%s = [\n%s\n];\n" % (name, "\n".join("\t" + "\t".join("%g" % x for x in r) + ";" for r in rows))
+        return "mpc.%s = [\n%s\n];\n" % (name, "\n".join("\t" + "\t".join(("%g" % x).replace("inf", "Inf") for x in r) + ";" for r in rows))
     text = "function mpc = gen%d\nmpc.version = '2';\nmpc.baseMVA = %g;\n%s%s%s" % (seed, base_mva, mat("bus", bus), mat("gen", gen), mat("branch", br))
     open(path, "w").write(text)
     return "generated MATPOWER case, seed %d, baseMVA %g: %d buses, ratios / phase shifts, bus shunts, a second unit and an out-of-service unit" % (
@@ -523,9 +548,9 @@ DYR_LAYOUT = {
                [_same(x) for x in ("E1", "SE1", "E2", "SE2")]),
     "ESST3A": ("exc", 0, [_same(x) for x in ("TR", "VIMAX", "VIMIN", "KM", "TC", "TB", "KA", "TA", "VRMAX", "VRMIN", "KG", "KP", "KI", "VBMAX",
                                              "KC", "XL", "VGMAX", "THETAP", "TM", "VMMAX", "VMMIN")]),
-    "IEEEST": ("pss", 2, [_same(x) for x in ("A1", "A2", "A3", "A4", "A5", "A6", "T1", "T2", "T3", "T4", "T5", "T6", "KS", "LSMAX", "LSMIN",
+    "IEEEST": ("pss", ["MODE", "busr"], [_same(x) for x in ("A1", "A2", "A3", "A4", "A5", "A6", "T1", "T2", "T3", "T4", "T5", "T6", "KS", "LSMAX", "LSMIN",
                                              "VCU", "VCL")]),
-    "ST2CUT": ("pss", 4, [_same(x) for x in ("K1", "K2", "T1", "T2", "T3", "T4", "T5", "T6", "T7", "T8", "T9", "T10", "LSMAX", "LSMIN",
+    "ST2CUT": ("pss", ["MODE", "busr", "MODE2", "busr2"], [_same(x) for x in ("K1", "K2", "T1", "T2", "T3", "T4", "T5", "T6", "T7", "T8", "T9", "T10", "LSMAX", "LSMIN",
                                              "VCU", "VCL")]),
 }
 
@@ -547,6 +572,38 @@ def read_dyr(path):
                 vals.append(tok.strip("'"))
         out.append((int(m.group(1)), m.group(2).strip(), m.group(3).strip("'").strip(), vals))
     return out
+
+
+def dyr_variant(src, dst):
+    """Copy a dyr file, giving every stabiliser record input modes that use remote buses, with different buses for the two inputs
+    of the dual-input model (the shipped files leave the remote buses at 0).  Returns a description or None."""
+    text = open(src, errors="replace").read()
+    chunks = text.split("/")
+    buses = []
+    for ch in chunks:
+        m = re.match(r"^\s*(\d+)\s*'([^']+)'", " ".join(ch.split()))
+        if m and int(m.group(1)) not in buses:
+            buses.append(int(m.group(1)))
+    if len(buses) < 3:
+        return None
+    n = 0
+    for k, ch in enumerate(chunks):
+        flat = " ".join(ch.split())
+        m = re.match(r"^(\s*\d+\s*'(IEEEST|ST2CUT)'\s*\S+)\s+(.*)$", flat)
+        if not m:
+            continue
+        toks = m.group(3).replace(",", " ").split()
+        b1, b2 = buses[(n + 1) % len(buses)], buses[(n + 2) % len(buses)]
+        if m.group(2) == "IEEEST":
+            toks[0:2] = ["2", str(b1)]
+        else:
+            toks[0:4] = ["2", str(b1), "5", str(b2)]
+        chunks[k] = "\n" + m.group(1) + " " + " ".join(toks) + " "
+        n += 1
+    if n == 0:
+        return None
+    open(dst, "w").write("/".join(chunks))
+    return "%d stabiliser record(s) with remote input buses" % n
 
 
 def compare_dyr(ss, path):
@@ -595,6 +652,22 @@ def compare_dyr(ss, path):
             continue
         target = cand[0]
         used[(model, target)] = True
+        if isinstance(nicon, list):
+            # integer constants in front of the CONs: input modes and remote buses (0 = none)
+            for j, name in enumerate(nicon):
+                p = getattr(mdl, name, None)
+                if p is None or j >= len(vals):
+                    continue
+                got = p.v[target]
+                want = vals[j]
+                checked += 1
+                if name.startswith("busr"):
+                    ok = (got is None or (isinstance(got, float) and math.isnan(got))) if float(want) == 0 else (got is not None and str(got).split(".")[0] == str(int(want)))
+                else:
+                    ok = got is not None and float(got) == float(want)
+                if not ok:
+                    bad.append(dict(record="%d '%s' %s" % (bus, model, gid), what="%s = %r, the file has %r at ICON %d" % (name, got, want, j + 1)))
+            nicon = len(nicon)
         cvals = vals[nicon:]
         for j, ent in enumerate(cons):
             if ent is None or j >= len(cvals):
